@@ -2,6 +2,7 @@
 //@include head.rs
 //@include select_lib.rs
 
+//@export-begin
 // ------------------------------------------------------------------ Highest
 //@extract src/methods/highest_lowest.rs struct:Highest
 //@end
@@ -24,6 +25,7 @@ impl Method for Highest {
 		&&& *out == post.value
 	}
 //@extract src/methods/highest_lowest.rs impl[Method for Highest]::new
+	ensures (r is Ok) == (length != 0 && length != PeriodType::MAX),
 //@hint result
 	proof { if r is Ok { let s = r->Ok_0.window.view(); lemma_cloned_konst(s, length as nat, value); assert(s[0] == value); } }
 //@end
@@ -79,6 +81,7 @@ impl Method for Lowest {
 		&&& *out == post.value
 	}
 //@extract src/methods/highest_lowest.rs impl[Method for Lowest]::new
+	ensures (r is Ok) == (length != 0 && length != PeriodType::MAX),
 //@hint result
 	proof { if r is Ok { let s = r->Ok_0.window.view(); lemma_cloned_konst(s, length as nat, value); assert(s[0] == value); } }
 //@end
@@ -136,6 +139,7 @@ impl Method for HighestLowestDelta {
 		&&& out@ == post.highest@ - post.lowest@
 	}
 //@extract src/methods/highest_lowest.rs impl[Method for HighestLowestDelta]::new
+	ensures (r is Ok) == (length != 0 && length != PeriodType::MAX),
 //@hint result
 	proof { if r is Ok { let s = r->Ok_0.window.view(); lemma_cloned_konst(s, length as nat, value); assert(s[0] == value); } }
 //@end
@@ -173,6 +177,8 @@ impl Method for HighestLowestDelta {
 		proof { lemma_iter_next(pre_it, it0__, &self.window, vw); }
 //@end
 }
+
+//@export-end
 
 // C08: exact constancy on a constant stream
 pub proof fn highest_const_step(pre: Highest, v: R, post: Highest, out: R)
